@@ -3021,7 +3021,8 @@ def c09_cli(ctx, res, limit):
     # word the program has just stored into - whichever line of the window it is
     _write(os.path.join(d, "at_zero.asm"), ".orig x0000\nlea r0 m\nputs\nhalt\nm .stringz \"hi\"\n")
     _write(os.path.join(d, "selfmod.asm"), "ld r0 w\nst r0 t\nadd r1 r1 #1\nadd r1 r1 #1\nt add r2 r2 #1\nadd r1 r1 #1\nlea r0 m\nputs\nhalt\nw .fill x14A2\nm .stringz \"ok\"\n")
-    for prog, origin, n_st, pre in (("at_zero.asm", 0, 6, "step"), ("selfmod.asm", 0x3000, 12, "step into 2")):
+    _write(os.path.join(d, "selfmod_last.asm"), "ld r0 w\nst r0 t\nlea r0 m\nputs\nhalt\nm .stringz \"ok\"\nw .fill x1\nt .fill x0\n")
+    for prog, origin, n_st, pre in (("at_zero.asm", 0, 6, "step"), ("selfmod.asm", 0x3000, 12, "step into 2"), ("selfmod_last.asm", 0x3000, 10, "step into 2")):
         plain = lace(ctx, ["run", prog], cwd=d, stdin=b"")
         script = pre + ";" + ";".join("assembly x%04x" % (origin + k) for k in range(n_st)) + ";assembly;continue"
         for mode in ([], ["--minimal"]):
@@ -3049,7 +3050,7 @@ def c09_cli(ctx, res, limit):
                         "a program that executes about %d million instructions: output or exit status differ between `lace run` and `lace debug --command %r`"
                         % ((18 if not ctx.thorough() else 60) * 131072 // 1000000, script), {"plain": plain.brief(), "debugged": dbg.brief()})
     res.require(["l2:debug_vs_run", "l2:debug_vs_run_with_program_input", "l2:program_prints_control_bytes", "l2:script_and_program_input_share_stdin", "l2:program_input_read_under_the_debugger",
-                 "l2:escape_sequence_written_across_pauses", "l2:millions_of_instructions_under_one_continue", "l2:assembly_of_every_statement:at_zero", "l2:assembly_of_every_statement:selfmod"], "L2")
+                 "l2:escape_sequence_written_across_pauses", "l2:millions_of_instructions_under_one_continue", "l2:assembly_of_every_statement:at_zero", "l2:assembly_of_every_statement:selfmod", "l2:assembly_of_every_statement:selfmod_last"], "L2")
 
 
 # ------------------------------------------------------------------ C20 (L2: the line editor on a real terminal)
